@@ -547,6 +547,21 @@ def gu_check(spec):
         A.check_meta(d, got, sig=sig)
 
 
+def gu_out_axes_cases(tier):
+    """'(i),(j)->(i,j)' (an output with TWO core dimensions) with every ordered pair of output positions given through
+    `axes`, ascending and descending, equal and unequal core lengths, every chunking of the loop dimension."""
+    import itertools
+
+    for (ni, nj), loop in itertools.product([(3, 3), (3, 4), (2, 2)], [2, 3]):
+        for lc in A.all_chunkings([loop]):
+            for oa in itertools.permutations([-3, -2, -1], 2):
+                for pos in (False, True):
+                    o = [a % 3 for a in oa] if pos else list(oa)
+                    yield {"sig": "(i),(j)->(i,j)", "allow_rechunk": False, "vectorize": False, "axis": None, "axes": [-1, -1, o],
+                           "arrays": [{"shape": [loop, ni], "chunks": [list(lc[0]), [ni]], "dtype": "i8", "seed": 1, "fill": "small"},
+                                      {"shape": [loop, nj], "chunks": [list(lc[0]), [nj]], "dtype": "i8", "seed": 2, "fill": "small"}]}
+
+
 def gu_nontrivial(spec):
     nb = [[len(c) for c in a["chunks"]] for a in spec["arrays"]]
     return any(max(n, default=1) > 1 for n in nb) and (len(nb) > 1 or spec["allow_rechunk"] or spec.get("axis") is not None or spec.get("axes") is not None)
@@ -617,6 +632,8 @@ SUBCHECKS = [
         doc="random grids, 1-3 inputs, literal args, drop_axis/new_axis/chunks=, recording functions"),
     Sub("blockwise", bw_check, strategy=lambda tier: bw_random(), n={"quick": 1500, "thorough": 30000}, nontrivial=bw_nontrivial, classes=bw_classes,
         doc="da.blockwise with random index strings, contraction (concatenate True/None), new_axes, adjust_chunks, alignment"),
+    Sub("gufunc-out-axes", gu_check, kind="enum", cases=gu_out_axes_cases, nontrivial=lambda spec: spec["axes"][2][0] % 3 > spec["axes"][2][1] % 3, classes=gu_classes, exhaustive=True,
+        doc="'(i),(j)->(i,j)' with every ordered pair of output core positions in `axes` (negative and positive spelling), equal/unequal core lengths, all loop chunkings == np.vectorize + moveaxis"),
     Sub("gufunc", gu_check, strategy=lambda tier: gu_random(), n={"quick": 1000, "thorough": 20000}, nontrivial=gu_nontrivial, classes=gu_classes,
         doc="apply_gufunc over a signature table with axis/axes/keepdims/allow_rechunk/vectorize vs np.vectorize(signature)"),
 ]
